@@ -409,6 +409,11 @@ class Interp:
         if isinstance(op, ast.Mult):
             if isinstance(a, PyList) and isinstance(b, int):
                 return PyList(a.items * b)
+            if isinstance(a, PyList) and len(a.items) == 1 and is_sym_int(b) and (is_z3(a.items[0]) or isinstance(a.items[0], int)):
+                # [x] * n with symbolic n: max(n, 0) copies of x
+                x = to_z3(a.items[0], Int) if not is_z3(a.items[0]) else a.items[0]
+                L = z3.If(b < 0, z3.IntVal(0), b)
+                return SymList(Seq(L, z3.K(Int, x)))
             if conc:
                 return a * b
             return _arith(a, b, lambda x, y: x * y)
@@ -1117,7 +1122,9 @@ class Interp:
                 for (pn, _), v in zip(ct.params, args):
                     loc[pn] = v
                 loc.update(kwargs)
-            return ct.apply(self, NS(loc, "argument"), node, fr)
+            r_ = ct.apply(self, NS(loc, "argument"), node, fr)
+            if r_ is not NotImplemented:
+                return r_
         if c.node is not None:
             loc = self.bind_args(c.node, args, kwargs, node, c)
         else:
